@@ -50,6 +50,7 @@ class Session:
         self.flow_sig = {}              # (mu, sigma) rounded -> version
         self.stack = []                 # context managers entered
         self.nfit = 0
+        self.pending_exc = None         # the interruption that is propagating out of the enclosing with-blocks
 
     def path(self, p):
         return os.path.join(self.tmp, f"f{p}.h5")
@@ -57,6 +58,8 @@ class Session:
     def do(self, op):
         """returns True iff the operation raised"""
         a, k = self.a, op[0]
+        if k != "exit":
+            self.pending_exc = None     # the interruption was handled inside the block; the session goes on
         try:
             if k == "fit":
                 self.nfit += 1
@@ -78,11 +81,13 @@ class Session:
                     # interrupted after `nck` checkpoints: initial likelihood call + 3 per iteration (kernel 1+1, re-evaluation)
                     self.target.n_like = 0
                     self.target.fault_at = 1 + 3 * nck
+                    # the interruption arrives as an ordinary exception or as a KeyboardInterrupt (Ctrl-C)
+                    self.target.fault_exc = smcrun.FaultInterrupt if self.seed % 2 else smcrun.Fault
                 with al.orng_seed(self.seed):
                     try:
                         a.sample_posterior(**kw)
-                    except smcrun.Fault:
-                        pass
+                    except smcrun.FAULTS as e:
+                        self.pending_exc = e
                     finally:
                         self.target.fault_at = None
             elif k == "enter":
@@ -92,14 +97,24 @@ class Session:
             elif k == "exit":
                 if self.stack:
                     cm, inst = self.stack.pop()
-                    cm.__exit__(None, None, None)
+                    e = self.pending_exc
+                    if e is not None:
+                        # the with-block is left BY the interruption (the usual way an interrupted run leaves its context)
+                        try:
+                            cm.__exit__(type(e), e, e.__traceback__)
+                        except smcrun.FAULTS:
+                            pass
+                    else:
+                        cm.__exit__(None, None, None)
+                    if not self.stack:
+                        self.pending_exc = None
             elif k == "resume":
                 from aspire import Aspire
 
                 self.a = Aspire.resume_from_file(self.path(op[1]), log_likelihood=self.target.log_likelihood, log_prior=self.target.log_prior)
                 self.stack = []      # a new instance: contexts of the old one no longer apply
             return False
-        except smcrun.Fault:
+        except smcrun.FAULTS:
             return False
         except Exception:   # noqa
             return True
@@ -312,6 +327,21 @@ def run(chk: core.Check):
         [("fit", 1, False), ("fit", None, False), ("sample", "smc", 1, False, 2)],
         [("fit", 1, False), ("fit", None, False), ("sample", "smc", 1, False, 1), ("resume", 1), ("sample", "smc", None, True, 0)],
         [("fit", 1, False), ("sample", "smc", 1, True, 0), ("fit", None, False), ("sample", "smc", 1, False, 2), ("resume", 1)],
+        # an SMC run inside a context is interrupted (even-length sequences: by a KeyboardInterrupt), the context is left by that
+        # interruption, and the session carries on OUTSIDE the context with a refit and a path-less importance run
+        [("enter", 1, True), ("fit", None, False), ("sample", "smc", None, False, 2), ("exit",), ("fit", None, False), ("sample", "importance", None, True, 0)],
+        [("fit", None, False), ("enter", 1, True), ("sample", "smc", None, False, 1), ("exit",), ("fit", None, False), ("sample", "importance", None, True, 0),
+         ("sample", "smc", None, True, 0), ("resume", 1)],
+        [("fit", None, False), ("enter", 1, True), ("enter", 2, True), ("sample", "smc", None, False, 2), ("exit",), ("exit",), ("fit", None, False),
+         ("sample", "importance", None, True, 0)],
+        # nested contexts: a run in the outer context, a refit inside a nested context on another file, another run in the outer one
+        [("enter", 1, True), ("fit", None, False), ("sample", "smc", None, True, 0), ("enter", 2, True), ("fit", None, False), ("exit",),
+         ("sample", "smc", None, True, 0), ("exit",), ("resume", 1)],
+        [("enter", 1, True), ("fit", None, False), ("sample", "smc", None, True, 0), ("enter", 2, True), ("fit", None, False), ("exit",),
+         ("sample", "smc", None, False, 2), ("exit",), ("resume", 1)],
+        # an explicit-path call on another file inside a context, then a default-path run on the context's file
+        [("fit", 1, False), ("enter", 1, True), ("fit", None, False), ("sample", "smc", 2, True, 0), ("sample", "smc", None, True, 0), ("exit",)],
+        [("fit", 1, False), ("enter", 1, True), ("sample", "smc", None, True, 0), ("fit", None, False), ("sample", "smc", 2, True, 0), ("sample", "smc", None, False, 1), ("exit",)],
         # a resumed object is refitted before it samples: the primed checkpoint belongs to the previous proposal
         [("fit", None, False), ("sample", "smc", 1, False, 2), ("resume", 1), ("fit", None, False), ("sample", "smc", None, True, 0)],
         [("fit", None, False), ("sample", "importance", 2, True, 0), ("fit", 2, False), ("sample", "smc", 2, True, 0), ("resume", 2), ("fit", None, False),
